@@ -29,6 +29,11 @@ RULE = ('cases: a list of 1-4 observables written to one dobs or pobs document a
         'stride / random subset of it, with 0-2 covariance inputs of dimension 1-3 on a subset of the observables; pobs: primary observables on one '
         'ensemble, identical lists (plus a class with differing lists, where refusing is admissible and silent misalignment is not); real-valued '
         '(white / AR / distinct) and integer-valued data with exact zeros; string, file gz on/off; separator_insertion True / None / False / int / str; '
+        'relation disjoint (no common configuration); histories: twin lists (same number, chain names, first / last configuration, lengths, covariance names; '
+        'different interior and data) written and read in both orders as strings, under one file name in two directories, overwriting one name, '
+        'modify-the-list-and-write-again; alias cases: the same Obs at several positions; inputs as int32 / int64 / list / range lists, strided arrays, '
+        'covariance as scalar / 1-d / 2-d with entries 1e-240..1e240 and gradients 1e-70..1e70, magnitudes 1e-150..1e150; file names with either extension '
+        'under either gz flag; every round trip is followed by argument-untouched and no-shared-memory judgements; '
         'non-trivial: the document was read back and at least one observable with a fluctuating Monte-Carlo chain was compared; '
         'distinct = digest of (digests of the observables, format, transport, gz, separator mode)')
 ASSUMPTIONS = ['central values are written with 17 significant digits: compared with rtol 1e-15; covariance matrices and gradients are written with 15 '
@@ -100,7 +105,7 @@ def teardown(ctx):
 
 def plan(tier):
     m = 1 if tier == 'quick' else 12
-    return [('dobs', 700 * m), ('dobs_int', 350 * m), ('pobs', 300 * m), ('pobs_int', 120 * m), ('pobs_lists', 60 * m)]
+    return [('dobs', 700 * m), ('dobs_int', 350 * m), ('pobs', 300 * m), ('pobs_int', 120 * m), ('pobs_lists', 60 * m), ('history', 120 * m), ('alias', 80 * m)]
 
 
 # ------------------------------------------------------------------------------------------
@@ -120,17 +125,31 @@ def subset(rng, cfgs, how):
     return sorted(int(c) for c in rng.choice(cfgs, size=k, replace=False))
 
 
-def make_dobs_list(ctx, rng, nobs, relation, data, nmax):
-    """Observables for one dobs document."""
+# replica names: r2 / r10 sort trap; 'A|B1' shares its stripped form's prefix with the ensemble 'AB'
+C12_REPS = rt_io.REP_POOL + ['B1']
+
+
+def rand_master(rng, nmax, nmin=8):
     nens = int(rng.integers(1, 3))
-    master = rt_io.rand_layout(rng, 'ensembles' if nens == 2 else str(rng.choice(['one', 'replicas'])), 8, nmax, allow_bare=False, maxens=2)
+    return rt_io.rand_layout(rng, 'ensembles' if nens == 2 else str(rng.choice(['one', 'replicas'])), nmin, max(nmax, nmin + 4), allow_bare=False, maxens=2,
+                             rep_pool=C12_REPS)
+
+
+def make_dobs_list(ctx, rng, nobs, relation, data, nmax, master=None, cvs=None, cov_extreme=None):
+    """Observables for one dobs document.  relation: identical | different (subsets) | disjoint (no common configuration)."""
+    if master is None:
+        master = rand_master(rng, nmax, 5 * nobs + 1 if relation == 'disjoint' else 8)
     ens = sorted(master)
-    cvs = rt_io.rand_covobs(PE, rng) if rng.random() < 0.45 else []
+    if cov_extreme is None:
+        cov_extreme = bool(rng.random() < 0.2)
+    if cvs is None:
+        cvs = rt_io.rand_covobs(PE, rng, extreme=cov_extreme) if rng.random() < 0.45 else []
+    interleave = bool(rng.integers(0, 2))
     kinds = ['white', 'ar', 'distinct'] if data == 'real' else ['counts', 'posint']
     obs = []
     for k in range(nobs):
         # identical: every observable on the complete master layout
-        use_e = ens if (relation == 'identical' or rng.random() < 0.5) else sorted(str(e) for e in rng.choice(ens, size=int(rng.integers(1, len(ens) + 1)), replace=False))
+        use_e = ens if (relation in ('identical', 'disjoint') or rng.random() < 0.5) else sorted(str(e) for e in rng.choice(ens, size=int(rng.integers(1, len(ens) + 1)), replace=False))
         prims = []
         for e in use_e:
             chains = sorted(master[e])
@@ -138,6 +157,12 @@ def make_dobs_list(ctx, rng, nobs, relation, data, nmax):
                 chains = sorted(str(c) for c in rng.choice(chains, size=int(rng.integers(1, len(chains) + 1)), replace=False))
             sub = {}
             for c in chains:
+                if relation == 'disjoint':
+                    cf = master[e][c]
+                    m = len(cf) // nobs
+                    piece = cf[k::nobs] if interleave else cf[k * m:(k + 1) * m if k < nobs - 1 else len(cf)]
+                    sub[c] = list(piece) if len(piece) >= 5 else list(cf)
+                    continue
                 how = 'full' if relation == 'identical' else str(rng.choice(['full', 'prefix', 'suffix', 'stride', 'random']))
                 sub[c] = subset(rng, master[e][c], how)
             prims.append(rt_io.primary(PE, rng, sub, str(rng.choice(kinds))))
@@ -158,18 +183,28 @@ def make_dobs_list(ctx, rng, nobs, relation, data, nmax):
                     o = o * (p + 20.0)
             else:
                 o = np.sin(prims[0]) + sum(np.exp(0.05 * p) for p in prims)
-            if rng.random() < 0.3:
-                o = o * float(10.0 ** rng.uniform(-6, 6))
-        for name, comps in cvs:
+        for name, comps, sc in cvs:
             if rng.random() < 0.7:
+                if cov_extreme:
+                    # tiny / huge gradients next to tiny / huge matrix entries
+                    o = o + sum(float(10.0 ** rng.uniform(-70, 70)) * float(rng.choice([-1, 1])) * c for c in comps)
+                    continue
                 lin = sum(float(rng.uniform(0.3, 2.0)) * float(rng.choice([-1, 1])) * c for c in comps)
                 o = o + lin if (data == 'int' or rng.random() < 0.5) else o * comps[0] + lin
+        if data == 'real':
+            # overall magnitude (applied last, so that fluctuations and central value scale together)
+            u = rng.random()
+            if u < 0.3:
+                o = o * float(10.0 ** rng.uniform(-6, 6))
+            elif u < 0.4:
+                o = o * float(10.0 ** rng.uniform(-150, 150))
         obs.append(o)
     return obs
 
 
-def make_pobs_list(ctx, rng, nobs, data, nmax, different=False):
-    lay = rt_io.rand_layout(rng, str(rng.choice(['one', 'replicas'])), 8, nmax, allow_bare=False)
+def make_pobs_list(ctx, rng, nobs, data, nmax, different=False, lay=None):
+    if lay is None:
+        lay = rt_io.rand_layout(rng, str(rng.choice(['one', 'replicas'])), 8, nmax, allow_bare=False, rep_pool=C12_REPS)
     e = sorted(lay)[0]
     kinds = ['white', 'ar', 'distinct'] if data == 'real' else ['counts', 'posint']
     obs = []
@@ -313,8 +348,8 @@ def read_file_bytes(path, gz):
 def run_dobs(ctx, rng, kind, idx, tmp):
     data = 'int' if kind == 'dobs_int' else 'real'
     nobs = 1 + idx % 4
-    relation = ['identical', 'different'][(idx // 4) % 2]
-    transport = ['string', 'file.gz', 'file', 'file.gz', 'string', 'file', 'string-str'][(idx // 8) % 7]
+    relation = ['identical', 'different', 'different', 'disjoint'][(idx // 4) % 4]
+    transport = ['string', 'file.gz', 'file', 'file.gz', 'string', 'file', 'string-str'][(idx // 16) % 7]
     nmax = 24 if ctx.tier == 'quick' else int(rng.choice([24, 60, 150]))
     obsl = make_dobs_list(ctx, rng, nobs, relation, data, nmax)
     names = sorted(set(n for o in obsl for n in o.names if n not in o.covobs))
@@ -327,6 +362,7 @@ def run_dobs(ctx, rng, kind, idx, tmp):
     kw = {'full_output': full}
     if mode is not True or rng.random() < 0.3:
         kw['separator_insertion'] = mode
+    before = frozen_list(obsl)
     MON['dobs'].docs.clear()
     if transport.startswith('string'):
         s = DIO.create_dobs_string(obsl, 'obsname')
@@ -345,16 +381,18 @@ def run_dobs(ctx, rng, kind, idx, tmp):
             r = DIO.import_dobs_string(s.encode('utf-8'), **kw)
     else:
         stem = os.path.join(tmp, 'd%d' % int(rng.integers(0, 10 ** 6)))
-        given = stem + str(rng.choice(['', '.xml', '.xml.gz' if gz else '.xml']))
+        # the explicit gz flag decides about compression, also when the name carries the other extension
+        given = stem + str(rng.choice(['', '.xml', '.xml.gz', '.xml']))
+        opts['name'] = given[len(stem):]
         DIO.write_dobs(obsl, given, 'obsname', gz=gz)
-        path = stem + '.xml' + ('.gz' if gz else '')
+        path = given if given.endswith('.gz') else stem + '.xml' + ('.gz' if gz else '')
         if not ctx.require(os.path.exists(path), 'dobs:file-not-at-documented-name', {'given': given, 'gz': gz, 'dir': os.listdir(tmp)}):
             return
         data_b = read_file_bytes(path, gz)
         ctx.require(len(MON['dobs'].docs) == 1 and data_b == MON['dobs'].docs[-1].encode('utf-8'), 'dobs:file-content-differs-from-emitted-string',
                     {'ndocs': len(MON['dobs'].docs)})
         try:
-            r = DIO.read_dobs(given if rng.random() < 0.5 else stem, gz=gz, **kw)
+            r = DIO.read_dobs(given if (rng.random() < 0.5 or given.endswith('.gz')) else stem, gz=gz, **kw)
         except ValueError as e:
             if gz or XML_DECL_MSG not in str(e):
                 raise
@@ -365,13 +403,27 @@ def run_dobs(ctx, rng, kind, idx, tmp):
     if full:
         ctx.require(isinstance(r, dict) and 'obsdata' in r, 'dobs:full-output-form', {'type': type(r).__name__})
         r = r['obsdata']
-    judge_list(ctx, rng, r, obsl, mode, 'dobs', opts, detail)
+    judge_list(ctx, rng, r, obsl, mode, 'dobs', opts, detail, before=before)
 
 
-def judge_list(ctx, rng, r, obsl, mode, fmt, opts, detail):
+def frozen_list(obsl):
+    """What must still be true of the list handed to the writer afterwards."""
+    return {'ids': [id(o) for o in obsl], 'digests': [obs_digest(o) for o in obsl], 'arrays': [[id(a) for a in rt_io.obs_arrays(o)] for o in obsl],
+            'tags': [repr(o.tag) for o in obsl]}
+
+
+def judge_list(ctx, rng, r, obsl, mode, fmt, opts, detail, before=None):
     ctx.count('roundtrips_compared')
     if not ctx.require(isinstance(r, list) and len(r) == len(obsl), fmt + ':number-of-observables', {'got': len(r) if isinstance(r, list) else type(r).__name__, 'exp': len(obsl)}):
         return
+    if before is not None:
+        # writer and reader leave the list and its members untouched; the results are independent objects
+        ctx.count('argument_untouched_checks')
+        ctx.require(frozen_list(obsl) == before, 'argument-modified-by-writer:list-of-observables', {'format': fmt})
+    sh = rt_io.sharing(list(r), list(obsl))
+    ctx.require(not sh, fmt + ':result-shares-memory-with-written-object', {'pairs (read, written)': sh[:5]})
+    sh = rt_io.sharing(list(r))
+    ctx.require(not sh, fmt + ':results-share-memory-with-each-other', {'pairs': sh[:5]})
     nm = name_map_for(obsl, mode)
     all_ok = True
     nontrivial = False
@@ -418,7 +470,9 @@ def run_pobs(ctx, rng, kind, idx, tmp):
     ctx.cell('pobs', nobs, 'different' if different else 'identical', data, 'file.gz' if gz else 'file', mode_label(mode))
     opts = dict(format='pobs', gz=gz, mode=repr(mode), nobs=nobs, data=data, different=different)
     stem = os.path.join(tmp, 'p%d' % int(rng.integers(0, 10 ** 6)))
-    given = stem + str(rng.choice(['', '.xml', '.xml.gz' if gz else '.xml']))
+    given = stem + str(rng.choice(['', '.xml', '.xml.gz', '.xml']))
+    opts['name'] = given[len(stem):]
+    before = frozen_list(obsl)
     MON['pobs'].docs.clear()
     try:
         DIO.write_pobs(obsl, given, 'obsname', gz=gz)
@@ -428,7 +482,7 @@ def run_pobs(ctx, rng, kind, idx, tmp):
             ctx.ev()
             return
         raise
-    path = stem + '.xml' + ('.gz' if gz else '')
+    path = given if given.endswith('.gz') else stem + '.xml' + ('.gz' if gz else '')
     if not ctx.require(os.path.exists(path), 'pobs:file-not-at-documented-name', {'given': given, 'gz': gz, 'dir': os.listdir(tmp)}):
         return
     data_b = read_file_bytes(path, gz)
@@ -441,7 +495,7 @@ def run_pobs(ctx, rng, kind, idx, tmp):
     if mode is not None or rng.random() < 0.3:
         kw['separator_insertion'] = mode
     try:
-        r = DIO.read_pobs(given if rng.random() < 0.5 else stem, gz=gz, **kw)
+        r = DIO.read_pobs(given if (rng.random() < 0.5 or given.endswith('.gz')) else stem, gz=gz, **kw)
     except ValueError as e:
         if not gz and XML_DECL_MSG in str(e):
             ctx.ev()
@@ -469,12 +523,136 @@ def run_pobs(ctx, rng, kind, idx, tmp):
                                          'note': 'write_pobs took the configuration numbers of the first observable for all of them'})
             ctx.nontrivial.add(digest([obs_digest(o) for o in obsl], repr(sorted(opts.items()))))
             return
-    judge_list(ctx, rng, r, obsl, mode, 'pobs', opts, dict(opts))
+    judge_list(ctx, rng, r, obsl, mode, 'pobs', opts, dict(opts), before=before)
+
+
+def restoring_mode(fmt, obsl):
+    """A separator mode under which the original names come back (so that analyses can be compared too)."""
+    if fmt == 'dobs':
+        return True
+    return len(obsl[0].names[0].split('|')[0])
+
+
+def write_read(fmt, obsl, target, gz, mode):
+    """target None: string transport (dobs only)."""
+    if fmt == 'dobs':
+        if target is None:
+            return DIO.import_dobs_string(DIO.create_dobs_string(obsl, 'obsname'), separator_insertion=mode)
+        DIO.write_dobs(obsl, target, 'obsname', gz=gz)
+        return DIO.read_dobs(target, gz=gz, separator_insertion=mode)
+    DIO.write_pobs(obsl, target, 'obsname', gz=gz)
+    return DIO.read_pobs(target, gz=gz, separator_insertion=mode)
+
+
+def twin_lists(ctx, rng, fmt, nobs, data, nmax):
+    """Two lists of observables that agree in number, chain names, first configuration, chain lengths (and last configuration
+    whenever there is room), covariance names - and differ in the interior configuration numbers and in the data."""
+    if fmt == 'dobs':
+        master = rand_master(rng, nmax)
+        cov_extreme = bool(rng.random() < 0.2)
+        cvs = rt_io.rand_covobs(PE, rng, extreme=cov_extreme) if rng.random() < 0.45 else []
+        A = make_dobs_list(ctx, rng, nobs, 'identical', data, nmax, master=master, cvs=cvs, cov_extreme=cov_extreme)
+        B = make_dobs_list(ctx, rng, nobs, 'identical', data, nmax, master=rt_io.twin_layout(rng, master), cvs=cvs, cov_extreme=cov_extreme)
+    else:
+        lay = rt_io.rand_layout(rng, str(rng.choice(['one', 'replicas'])), 8, nmax, allow_bare=False, rep_pool=C12_REPS)
+        A = make_pobs_list(ctx, rng, nobs, data, nmax, lay=lay)
+        B = make_pobs_list(ctx, rng, nobs, data, nmax, lay=rt_io.twin_layout(rng, lay))
+    return A, B
+
+
+def run_history(ctx, rng, idx, tmp):
+    fmt = ['dobs', 'dobs', 'pobs'][idx % 3]
+    scenario = ['strings', 'same-name-two-directories', 'overwrite-same-name', 'modify-and-write-again'][(idx // 3) % 4]
+    if fmt == 'pobs' and scenario == 'strings':
+        scenario = 'same-name-two-directories'
+    nobs = 1 + (idx // 12) % 3
+    data = 'int' if idx % 5 == 4 else 'real'
+    A, B = twin_lists(ctx, rng, fmt, nobs, data, 24 if ctx.tier == 'quick' else 60)
+    mode = restoring_mode(fmt, A)
+    gz = bool(rng.integers(0, 2))
+    ctx.cell('history', fmt, scenario, nobs, data)
+    ctx.count('histories')
+    opts = dict(format=fmt, history=scenario, nobs=nobs, data=data, gz=gz)
+    pair = [A, B]
+    order = [int(i) for i in rng.permutation(2)]
+
+    def judge(r, obsl, step, before=None):
+        o2 = dict(opts, step=step)
+        judge_list(ctx, rng, r, obsl, mode, fmt, o2, o2, before=before)
+    if scenario == 'strings':
+        docs = [DIO.create_dobs_string(x, 'obsname') for x in pair]
+        earlier = {}
+        for k in order + order[::-1]:
+            r = DIO.import_dobs_string(docs[k], separator_insertion=mode)
+            judge(r, pair[k], 'string %d' % k)
+            if k in earlier:
+                sh = rt_io.sharing(list(r), list(earlier[k]))
+                ctx.require(not sh, 'dobs:two-reads-of-one-document-share-memory', {'pairs': sh[:5]})
+                judge(earlier[k], pair[k], 'earlier result %d after later reads' % k)
+            earlier[k] = r
+    elif scenario == 'same-name-two-directories':
+        dirs = [os.path.join(tmp, 'a'), os.path.join(tmp, 'b')]
+        for k in order:
+            os.mkdir(dirs[k])
+            before = frozen_list(pair[k])
+            r = write_read(fmt, pair[k], os.path.join(dirs[k], 'same'), gz, mode)
+            judge(r, pair[k], 'write+read %s/same' % 'ab'[k], before)
+        for k in order[::-1] + order:
+            r = (DIO.read_dobs if fmt == 'dobs' else DIO.read_pobs)(os.path.join(dirs[k], 'same'), gz=gz, separator_insertion=mode)
+            judge(r, pair[k], 'read %s/same' % 'ab'[k])
+    elif scenario == 'overwrite-same-name':
+        name = os.path.join(tmp, 'again')
+        for step, k in enumerate(order + order[::-1]):
+            r = write_read(fmt, pair[k], name, gz, mode)
+            judge(r, pair[k], 'overwrite step %d' % step)
+    else:
+        name = os.path.join(tmp, 'mod')
+        x = list(A)
+        r = write_read(fmt, x, name, gz, mode)
+        judge(r, x, 'first dump')
+        # modify the list that was written (replace a member by one from the twin family's data kind on the same layout,
+        # reverse the order), write it again under the same name
+        repl = make_dobs_list(ctx, rng, 1, 'identical', data, 24, master={e: {c: list(o.idl[c]) for c in o.names if c not in o.covobs and c.split('|')[0] == e}
+                                                                               for o in [x[0]] for e in o.mc_names}, cvs=[])[0] if fmt == 'dobs' else \
+            make_pobs_list(ctx, rng, 1, data, 24, lay={x[0].mc_names[0]: {c: list(x[0].idl[c]) for c in x[0].names}})[0]
+        x[int(rng.integers(0, len(x)))] = repl
+        x.reverse()
+        r = write_read(fmt, x, name, gz, mode)
+        judge(r, x, 'modified list dumped again')
+        if fmt == 'dobs':
+            r = write_read(fmt, x, None, gz, mode)
+            judge(r, x, 'modified list via string')
+
+
+def run_alias(ctx, rng, idx, tmp):
+    """The same Obs object at several positions of the list: every position must come back, with equal values."""
+    fmt = ['dobs', 'dobs', 'pobs'][idx % 3]
+    data = 'int' if idx % 4 == 3 else 'real'
+    nmax = 24
+    if fmt == 'dobs':
+        base = make_dobs_list(ctx, rng, 2, ['identical', 'different'][(idx // 3) % 2], data, nmax)
+    else:
+        base = make_pobs_list(ctx, rng, 2, data, nmax)
+    a, b = base
+    pattern = [[a, b, a], [a, a], [a, a, b, b], [b, a, b, a]][(idx // 6) % 4]
+    mode = restoring_mode(fmt, pattern)
+    gz = bool(rng.integers(0, 2))
+    ctx.cell('alias', fmt, len(pattern), data)
+    ctx.count('alias_cases')
+    opts = dict(format=fmt, alias=[('a' if o is a else 'b') for o in pattern], data=data, gz=gz)
+    before = frozen_list(pattern)
+    target = None if (fmt == 'dobs' and rng.random() < 0.4) else os.path.join(tmp, 'alias')
+    r = write_read(fmt, pattern, target, gz, mode)
+    judge_list(ctx, rng, r, pattern, mode, fmt, opts, opts, before=before)
 
 
 def run_case(ctx, kind, idx, rng):
     with tempfile.TemporaryDirectory(prefix='vmon_C12_', dir='/var/tmp') as tmp:
-        if kind.startswith('dobs'):
+        if kind == 'history':
+            run_history(ctx, rng, idx, tmp)
+        elif kind == 'alias':
+            run_alias(ctx, rng, idx, tmp)
+        elif kind.startswith('dobs'):
             run_dobs(ctx, rng, kind, idx, tmp)
         else:
             run_pobs(ctx, rng, kind, idx, tmp)
